@@ -136,4 +136,18 @@ theorem recv_error_was_a_datagram : listenerReadOld 5 .error = .ok (some { addr 
 /-! ### non-vacuity -/
 example : run [⟨1, [1]⟩, ⟨2, [2]⟩, ⟨1, [3]⟩] = [(1, [[1], [3]]), (2, [[2]])] := by decide
 
+/-! ### the relay of an association: every datagram, of every length -/
+
+/-- every frame the reader yields is written, in order, once — empty payloads included — for every history -/
+theorem relay_delivers_all (fs : List Frame) : relayFrames (fs.map (fun f => Res.ok (some f))) = fs := by
+  induction fs with
+  | nil => rfl
+  | cons f rest ih => simp [relayFrames, ih]
+
+/-- a zero-length datagram in the middle of an association: with the writer's byte count as end-of-source signal
+    (seeded change C10d) everything behind it is lost -/
+theorem empty_datagram_must_not_end_the_relay :
+    relayFramesLenStops ([⟨some 1, [1]⟩, ⟨some 1, []⟩, ⟨some 1, [2]⟩].map (fun f => Res.ok (some f))) = [⟨some 1, [1]⟩, ⟨some 1, []⟩] := by
+  decide
+
 end Redproxy.Props.C10
